@@ -300,6 +300,26 @@ def run(F, ck, tier):
               'lookup evaluators derive different integer parameters: check_lookup_constraints has %s but %s has %s - prover, native verifier and in-circuit verifier then group table slots / lookups differently and honest proofs are rejected for some row widths' %
               ([x for x in ref4 if x not in params[q]], q, [x for x in params[q] if x not in ref4]), '%s:%d' % (fns[q].file, fns[q].line))
     ck.floor('R08.4', 'integer parameters per lookup evaluator', len(ref4 or []), 4)
+    # slots are always grouped with a CEILING division (a partially filled last group still needs its polynomial / degree): no plain
+    # division of a slot count in the evaluators or in the prover's compute_lookup_polys
+    grp_fns = dict(fns)
+    cl = F.one('plonk::prover::compute_lookup_polys', crate='plonky2')
+    if cl is not None:
+        grp_fns['compute_lookup_polys'] = cl
+    for q, fn in sorted(grp_fns.items()):
+        env, bad4 = {}, []
+        for s_ in walk(fn.body):
+            if s_.get('k') == 'Let' and 'i' in s_ and s_['p'].get('k') == 'Bind' and s_['p']['id'] not in env:
+                try:
+                    env[s_['p']['id']] = E_.ev(fn, s_['i'], env, 3)
+                    sh = _poly.show(env[s_['p']['id']])
+                    # a floor division whose numerator is itself a slot count:  ((num_routed_wires)/(k))/(...)
+                    if _re.search(r'\(\(CircuitConfig\.num_routed_wires\)/\(\d+\)\)/\(', sh) and 'div_ceil' not in sh.split('((CircuitConfig')[0][-12:]:
+                        bad4.append('%s = %s' % (s_['p']['n'], sh))
+                except _poly.Unknown as ex:
+                    env[s_['p']['id']] = ex
+        ck.ob('R08.4', 'ceil-grouping:' + q, not bad4, 'slot counts are grouped with ceiling divisions only' if not bad4 else
+              '%s groups slots with a floor division (%s): when the divisor divides the slot count the result is one too large (or the last partial group is lost) and prover and verifier use different degrees for some row widths' % (q, '; '.join(bad4)), '%s:%d' % (fn.file, fn.line))
     # R08.9 padding bound: the prover's padding of looking rows and the table polynomial's padding (native and in-circuit)
     npad = 0
     for sw, n, res in pad_bounds(F):
